@@ -150,7 +150,8 @@ def probe_settled(th, timeout=3.0):
 
 
 class Env:
-    def __init__(self, callers, kind, plan, cls="Transport", jitter=None, role="server"):
+    def __init__(self, callers, kind, plan, cls="Transport", jitter=None, role="server", prior="none"):
+        self.prior = prior
         self.callers = list(callers)       # [(api, mode)] ; free plan: [(api, mode, when)]
         self.kind, self.plan, self.cls = kind, plan, cls
         self.jitter = jitter
@@ -220,6 +221,12 @@ class Env:
                 if sch is None:
                     raise RuntimeError("server did not see the channel")
                 self.chans.append((ch, sch))
+        # state left behind on the callers' channels by an earlier operation of the application
+        if self.prior != "none":
+            for pair in self.chans:
+                ch = pair[1] if self.victim_is_server else pair[0]
+                {"shutdown_read": ch.shutdown_read, "shutdown_write": ch.shutdown_write,
+                 "shutdown_both": lambda: ch.shutdown(2)}[self.prior]()
         # instrument the victim
         v = self.victim
         v.packetizer.c13_env = self
@@ -561,7 +568,7 @@ class Env:
             events = list(self.events)
         obs = {"callers": [list(c) for c in self.callers], "kind": self.kind, "plan": plan, "cls": self.cls,
                "events": events, "results": [dict(r) for r in self.results], "blocked": blocked,
-               "active": self.active(), "established": est, "notes": list(self.notes), "D": D, "role": self.end}
+               "active": self.active(), "established": est, "notes": list(self.notes), "D": D, "role": self.end, "prior": self.prior}
         self.cleanup()
         return obs
 
@@ -599,8 +606,8 @@ class Env:
             pass
 
 
-def run_case(callers, kind, plan, cls="Transport", D=2.0, jitter=None, role="server"):
-    env = Env(callers, kind, plan, cls, jitter, role)
+def run_case(callers, kind, plan, cls="Transport", D=2.0, jitter=None, role="server", prior="none"):
+    env = Env(callers, kind, plan, cls, jitter, role, prior)
     try:
         return env.run(D)
     except Exception:
